@@ -27,7 +27,7 @@ Tie        : real create_table / load_table / Table(...) calls (and a first appe
              the local backend (real flock; opening and flock()ing the lock file are separate steps, and so is every storage
              operation a backend's create_lock performs on the lock file) and on S3StorageBackend over the in-memory
              conditional-write S3 with a grant-everyone lock, from initial states {absent, healthy, pointer lost, only-v0 with
-             pointer lost}; EVERY schedule with at most two preemptions for two creators of an absent table, bounded
+             pointer lost, (object store) pointer lost under more than one listing page of objects}; EVERY schedule with at most two preemptions for two creators of an absent table, bounded
              enumeration + random otherwise.  The storage log is projected to model events (probe, lock, check, v0 write,
              pointer creation, second resolution + removal of the own v0 after a refused creation, release, adopt) which
              `crun_strict` must accept; compared: number of successful creations, v0 files left on storage, identity of the
@@ -67,7 +67,7 @@ MANIFEST_ENTRY = {
                   "used, no schema -> append raises before any write; what a refused create-if-absent does and the schema kernels are "
                   "regenerated from the source. NOT proved, oracle only: the first appender's commit racing creators, dying creators, "
                   "storage faults. Real create_table / load_table / Table() calls and a first appender are scheduled at "
-                  "storage-operation granularity (lock-file creation included) on local and CAS-S3 backends from four initial states and "
+                  "storage-operation granularity (lock-file creation included) on local and CAS-S3 backends from five initial states and "
                   "trace-validated against the model; every run's final state is re-opened after deleting its pointer",
     "level_note": "trusted: Coq kernel; translator/gen_commit.py (skeleton of initialize_table, failure classes of the pointer creation, "
                   "_is_table_in_effect pinned: C18_skeleton_regenerated) and gen_createschema.py (source shapes pinned); scheduler harness "
@@ -599,7 +599,7 @@ def schema_replay(ctx, k: int) -> int:
 def run(ctx) -> None:
     ctx.rule = ("schedules of 2-3 creators/openers (create_table, load_table, Table(), create+first append) at storage-operation "
                 "granularity (lock-file creation: open / flock / backend writes are steps) x initial state {absent, healthy, pointer lost, "
-                "v0 only + pointer lost} x {local flock, CAS-S3 with a grant-everyone lock}; all <=2-preemption schedules for two creators "
+                "v0 only + pointer lost, pointer lost + >1 listing page (object store)} x {local flock, CAS-S3 with a grant-everyone lock}; all <=2-preemption schedules for two creators "
                 "of an absent table, bounded-preemption enumeration + random otherwise; every run followed by a pointer loss + reopen; "
                 "six schema arguments; distinct = executed schedule")
     ctx.trusted_base += ["harness/lib/sched.py, mems3.py; harness/props/c18.py projection of storage calls onto creation events"]
